@@ -335,7 +335,7 @@ def worker_main(args):
             break
         seed = core.run_seed(args["batch_seed"], r)
         prof = profs[r % len(profs)] if args.get("profile") is None else args["profile"]
-        faulthandler.dump_traceback_later(args.get("hang_s", 180), exit=True)
+        faulthandler.dump_traceback_later(args.get("hang_s", 600), exit=True)
         script = engine.generate(seed, prof, tier)
         script.setdefault("engine", engine.name)
         script["prop"] = prop
@@ -344,6 +344,8 @@ def worker_main(args):
         script["hashseed"] = hashseed
         scripts = engine.expand(script, tier) or [script]
         for sc in scripts:
+            faulthandler.cancel_dump_traceback_later()
+            faulthandler.dump_traceback_later(args.get("hang_s", 600), exit=True)
             res = execute_script(engine, sc)
             agg["execs"] += 1
             agg["ops"] += res["ops"]
